@@ -1,1 +1,41 @@
-fn main(){}
+//! Check binary for the properties that also need the `elvis` crate.
+//! Usage: vapp <ID> --tier quick|thorough [--replay file]
+
+#[path = "../../vcore/src/c14dec.rs"]
+mod c14dec;
+
+use vkit::report::{load_replay, parse_args, Report};
+
+type RunFn = fn(&mut Report, &str);
+type ReplayFn = fn(&serde_json::Value, &str) -> String;
+
+fn c14_run(r: &mut Report, tier: &str) {
+    c14dec::run(r, tier);
+}
+fn c14_replay(w: &serde_json::Value, tier: &str) -> String {
+    c14dec::replay(w, tier)
+}
+
+const CHECKS: &[(&str, &str, RunFn, ReplayFn)] = &[("C14", "exploration", c14_run, c14_replay)];
+
+fn main() {
+    let args = parse_args();
+    vkit::install_panic_hook();
+    rayon::ThreadPoolBuilder::new()
+        .num_threads(vkit::threads())
+        .stack_size(16 << 20)
+        .build_global()
+        .ok();
+    let Some(c) = CHECKS.iter().find(|c| c.0 == args.id) else {
+        eprintln!("MACHINERY-ERROR unknown property {}", args.id);
+        std::process::exit(2);
+    };
+    if let Some(path) = &args.replay {
+        let v = load_replay(path);
+        println!("{}", (c.3)(&v["witness"], &args.tier));
+        return;
+    }
+    let mut r = Report::new(c.0, &args.tier, c.1);
+    (c.2)(&mut r, &args.tier);
+    std::process::exit(r.finish());
+}
